@@ -8,11 +8,11 @@ T=${1:-quick}; [ $# -gt 0 ] && shift
 fail=0
 git -C /repo status --short | grep -v '^??' && { echo "/repo has uncommitted changes"; exit 2; }
 for d in "$@"; do
-  d=${d%/}; p=$(python3 -c "import json,sys; print(json.load(open('$d/meta.json'))['property'])")
+  d=${d%/}; d=$(cd "$d" && pwd); p=$(python3 -c "import json,sys; print(json.load(open('$d/meta.json'))['property'])")
   if python3 -c "import json,sys; sys.exit(0 if str(json.load(open('$d/meta.json')).get('detected_by','')).lower().startswith('not') else 1)"; then
     echo "SELFTEST $d: documented as not detected by ./check $p (see meta.json)"; continue; fi
   git -C /repo apply "$d/patch.diff" || { echo "SELFTEST $d: patch does not apply"; fail=1; continue; }
-  ./check "$p" "$T" > /tmp/selftest.out 2>&1; rc=$?
+  VF_OUT_DIR="${TMPDIR:-/var/tmp}/dtaidistance-verif-selftest" ./check "$p" "$T" > /tmp/selftest.out 2>&1; rc=$?   # evidence/ of the real tree is left alone
   git -C /repo checkout -- .
   n=$(grep -c '^VIOLATION' /tmp/selftest.out)
   if [ $rc -eq 1 ] && [ "$n" -gt 0 ]; then echo "SELFTEST $d: detected by ./check $p $T ($n VIOLATION lines)"; else echo "SELFTEST $d: MISSED by ./check $p $T (rc=$rc)"; fail=1; fi
